@@ -38,6 +38,10 @@ var credClasses = []credClass{
 	{Name: "lowercase_scheme", Header: func(e *c09env) (string, bool) { return "bearer " + e.user, true }},
 	{Name: "unknown_token", Header: func(*c09env) (string, bool) { return "Bearer notAtokenNotAtokenNotAtoken123456", true }},
 	{Name: "revoked_token", Header: func(e *c09env) (string, bool) { return "Bearer " + e.revoked, true }},
+	{Name: "sql_wildcard_percent", Header: func(*c09env) (string, bool) { return "Bearer %", true }},
+	{Name: "sql_wildcard_underscores", Header: func(e *c09env) (string, bool) { return "Bearer " + strings.Repeat("_", len(e.user)), true }},
+	{Name: "token_prefix_wildcard", Header: func(e *c09env) (string, bool) { return "Bearer " + e.user[:4] + "%", true }},
+	{Name: "token_other_case", Header: func(e *c09env) (string, bool) { return "Bearer " + swapCase(e.user), true }},
 	{Name: "valid_user_token", Valid: true, Header: func(e *c09env) (string, bool) { return "Bearer " + e.user, true }},
 	{Name: "admin_token", Valid: true, Admin: true, Header: func(e *c09env) (string, bool) { return "Bearer " + e.rig.Cfg.HTTP.AuthToken, true }},
 }
@@ -46,6 +50,22 @@ var allowedRoot = []*regexp.Regexp{
 	regexp.MustCompile(`^/status$`),
 	regexp.MustCompile(`^/swagger/\*any$`),
 	regexp.MustCompile(`^/connection/websocket$`),
+}
+
+func swapCase(s string) string {
+	b := []byte(s)
+	for i, c := range b {
+		switch {
+		case c >= 'a' && c <= 'z':
+			b[i] = c - 32
+		case c >= 'A' && c <= 'Z':
+			b[i] = c + 32
+		}
+	}
+	if string(b) == s {
+		return s + "x"
+	}
+	return string(b)
 }
 
 // fill replaces route parameters by values that would reach handler logic.
@@ -80,7 +100,7 @@ func bodyFor(method, path string, e *c09env) []byte {
 
 func runC09(env core.Env, rep *core.Report) {
 	rep.Rule = "one evaluation = one request (route from Engine.Routes() x credential class) under one configuration (use_auth x profiling x metrics); non-trivial = the credential is malformed, unknown, revoked or insufficient for the route; distinct by (configuration, method, route, class)"
-	rep.Bound = "[complete product: every registered route x 10 credential classes x use_auth{on,off} x debug_profiling{on,off} x metrics{off,on}; finite, enumerated completely]"
+	rep.Bound = "[complete product: every registered route x 14 credential classes x use_auth{on,off} x debug_profiling{on,off} x metrics{off,on}; finite, enumerated completely]"
 	job := 0
 	for _, metricsOn := range []bool{false, true} {
 		if metricsOn {
@@ -125,6 +145,11 @@ func c09config(rep *core.Report, useAuth, prof, metricsOn bool) {
 		return t.Token
 	}
 	e.user, e.revoked = mk(), mk()
+	for _, tok := range []string{e.user, e.revoked} {
+		if r := api.Do("GET", "/api/v1/chain/tip/longest", nil, map[string]string{"Authorization": "Bearer " + tok}); r.Code != 200 {
+			rep.HarnessError("a fresh token does not authenticate: " + fmt.Sprint(r.Code))
+		}
+	}
 	if r := api.Do("DELETE", "/api/v1/access/"+e.revoked, nil, adminHdr(rig)); r.Code != 200 {
 		rep.HarnessError("cannot revoke token")
 	}
